@@ -122,6 +122,7 @@ structure State where
   nextCollId : Nat := 1
   expNext : Nat := 0      -- expiry manager: next scheduled time (0 = none)
   feeds : List Feed := []
+  acked : List Nat := []  -- ghost history: CAS of every committed `withNewCas` transaction, newest first
   deriving Repr, Inhabited
 
 namespace State
